@@ -7,8 +7,9 @@ Tr == ndJsonDeserialize(IOEnv.TRACE)
 VARIABLE l
 TInit == l = 1
 TNext == l <= Len(Tr) /\ l' = l + 1
-Cells(e) == [a \in UNION {{e.org + 2 * (i - 1), e.org + 2 * (i - 1) + 1} : i \in 1..Len(e.words)} |->
-               LET i == ((a - e.org) \div 2) + 1 IN IF (a - e.org) % 2 = 0 THEN e.words[i] % 256 ELSE e.words[i] \div 256]
+WordCells(org, ws) == [a \in UNION {{org + 2 * (i - 1), org + 2 * (i - 1) + 1} : i \in 1..Len(ws)} |->
+                         LET i == ((a - org) \div 2) + 1 IN IF (a - org) % 2 = 0 THEN ws[i] % 256 ELSE ws[i] \div 256]
+Cells(e) == WordCells(e.org, e.words) @@ WordCells(768, e.data)
 \* naken_util's reset state: registers 0, SP = 0x0800, PC from -set_pc
 Start(e) == [reg |-> [i \in 1..16 |-> IF i = 1 THEN e.org ELSE IF i = 2 THEN 2048 ELSE 0], set |-> Cells(e), zero |-> TRUE]
 Why(e) ==
